@@ -352,9 +352,12 @@ def dict_in(stmts, name):
 
 
 def single_def(func, name):
-    """the only binding `name = value` of a local (else None)"""
+    """the only binding `name = value` of a local within a function or a
+    list of statements (else None)"""
     found = []
-    for n in walk(func):
+    nodes = walk(func) if not isinstance(func, list) else (
+        n for st in func for n in walk(st))
+    for n in nodes:
         if isinstance(n, ast.Assign):
             for t in n.targets:
                 if isinstance(t, ast.Name) and t.id == name:
@@ -365,7 +368,8 @@ def single_def(func, name):
         elif isinstance(n, (ast.AugAssign, ast.AnnAssign, ast.For)) \
                 and isinstance(n.target, ast.Name) and n.target.id == name:
             found.append(None)
-    if name in [a.arg for a in func.args.args]:
+    if not isinstance(func, list) and name in [
+            a.arg for a in func.args.args]:
         found.append(None)
     return found[0] if len(found) == 1 else None
 
@@ -383,16 +387,23 @@ class _AliasExpand(ast.NodeTransformer):
             if d is not None and isinstance(
                     d.value, (ast.Name, ast.Subscript)) \
                     and node.id not in names_in(d.value):
-                import copy as _copy
                 return _AliasExpand(self.func, self.depth - 1).visit(
-                    _copy.deepcopy(d.value))
+                    _fresh(d.value))
         return node
 
 
+def _fresh(e):
+    """parent-less copy of an expression (a deepcopy would follow the
+    .parent links and copy the whole module)"""
+    t = e if isinstance(e, str) else txt(e)
+    try:
+        return ast.parse(t, mode="eval").body
+    except SyntaxError:
+        return ast.parse(f"_[{t}]", mode="eval").body.slice
+
+
 def alias_txt(func, e):
-    import copy as _copy
-    return txt(ast.fix_missing_locations(
-        _AliasExpand(func).visit(_copy.deepcopy(e))))
+    return txt(_AliasExpand(func).visit(_fresh(e)))
 
 
 def root_def(func, e):
@@ -991,7 +1002,11 @@ def r53(ctx, repo, m):
             star = [kw for kw in c.keywords if kw.arg is None]
             data = kwarg(c, "data") if call_name(c) == "scale_feature" \
                 else kwarg(c, "emodulus", 0)
-            apps[txt(data)] = (c, txt(star[0].value) if star else None,
+            if data is None:
+                raise AnalysisError("get_emodulus: data argument of "
+                                    f"`{short(c, 40)}`")
+            apps[alias_txt(m.routeB, data)] = (
+                c, txt(star[0].value) if star else None,
                                txt(kwarg(c, "feat")) if call_name(c) ==
                                "scale_feature" else "emodulus")
     want = {f"{m.lut}[:, 0]": ("scale_kw", m.featx),
@@ -1312,10 +1327,13 @@ def r55(ctx, repo, m, x4):
         scales = [c for s in stmts for c in find_calls(s, name="scale_feature")
                   + find_calls(s, name="scale_emodulus")
                   if top(c) < top(g)]
-        for k, data in ((0, xd), (1, yd)):
+        for k, dnode in ((0, xi.elts[0]), (1, xi.elts[1])):
             col = f"{m.lut}[:, {k}]"
-            nl = [c for c in norms if txt(c.args[0]) == col]
-            nd = [c for c in norms if txt(c.args[0]) == data]
+            data = txt(dnode)
+            nl = [c for c in norms if c.args and alias_txt(
+                stmts, c.args[0]) == col]
+            nd = [c for c in norms if c.args and alias_txt(
+                stmts, c.args[0]) == alias_txt(stmts, dnode)]
             lab = f"[{which}] normalisation axis {k}"
             if len(nl) != 1 or len(nd) != 1:
                 ctx.ob("R5.5", False,
@@ -1323,27 +1341,38 @@ def r55(ctx, repo, m, x4):
                        f"normalised exactly once ({len(nl)}/{len(nd)})",
                        node=g, label=lab)
                 continue
-            dv = txt(nl[0].args[1])
+            if len(nl[0].args) != 2 or len(nd[0].args) != 2:
+                raise AnalysisError("get_emodulus: normalize() arguments")
             why = None
-            if txt(nd[0].args[1]) != dv:
-                why = (f"LUT column {k} is divided by `{dv}` but the data "
-                       f"`{data}` by `{txt(nd[0].args[1])}`")
-            ddef = [s for s in stmts if isinstance(s, ast.Assign)
-                    and txt(s.targets[0]) == dv]
-            if why is None and (len(ddef) != 1 or txt(ddef[0].value)
-                                != f"{col}.max()"):
-                why = (f"the divisor `{dv}` is not the maximum of LUT "
-                       f"column {k}")
+            rl, ddef = root_def(stmts, nl[0].args[1])
+            rd, _ = root_def(stmts, nd[0].args[1])
+            dv = rl or txt(nl[0].args[1])
+            if rl is None or rd is None:
+                why = (f"the divisor `{short(nl[0].args[1], 30)}` / "
+                       f"`{short(nd[0].args[1], 30)}` is not a value "
+                       "computed once and shared by LUT column and data")
+            elif rl != rd:
+                why = (f"LUT column {k} is divided by `{rl}` but the data "
+                       f"`{data}` by `{rd}`")
+            elif ddef is None:
+                raise AnalysisError(f"get_emodulus: divisor `{rl}` has no "
+                                    "single definition in its route")
+            elif alias_txt(stmts, ddef.value) not in (
+                    f"{col}.max()", f"np.max({col})", f"np.amax({col})",
+                    f"max({col})", f"np.nanmax({col})"):
+                why = (f"the divisor `{dv}` = "
+                       f"`{short(ddef.value, 30)}` is not the maximum of "
+                       f"LUT column {k}")
             if why is None:
-                d_at = pos[id(ddef[0])]
+                d_at = top(ddef)
                 if not (d_at < top(nl[0]) and d_at < top(nd[0])
                         and top(nl[0]) < top(g) and top(nd[0]) < top(g)):
                     why = ("the maximum is not taken before, or the "
                            "normalisation not done before, the "
                            "interpolation")
-                late = [c for c in scales if base_name(
-                    kwarg(c, "data") or kwarg(c, "emodulus", 0)) == m.lut
-                    and top(c) > d_at]
+                late = [c for c in scales if alias_txt(stmts, kwarg(
+                    c, "data") or kwarg(c, "emodulus", 0)).split(
+                    "[")[0] == m.lut and top(c) > d_at]
                 if why is None and late:
                     why = (f"`{short(late[0], 40)}` scales the LUT after "
                            f"its maximum `{dv}` was taken: LUT and data are "
@@ -1591,4 +1620,93 @@ TWINS = [
       '\n                        "channel_width_out": channel_width,\n')),
     ("pixel scale written as a quotient of squares", PX,
      ("    pxscale = (.34 / px_um)**2", "    pxscale = .34**2 / px_um**2")),
+    ('refactoring: per-axis normalisation helper extracted', EM,
+     [('        featx_norm = lut[:, 0].max()\n'
+       '        normalize(lut[:, 0], featx_norm)\n'
+       '        normalize(datax_4lut, featx_norm)\n'
+       '\n'
+       '        defo_norm = lut[:, 1].max()\n'
+       '        normalize(lut[:, 1], defo_norm)\n'
+       '        normalize(deform_4lut, defo_norm)\n',
+       '        _normalize_lut_axis(lut[:, 0], datax_4lut)\n'
+       '        defo_norm = _normalize_lut_axis(lut[:, 1], deform_4lut)\n'),
+      ('        featx_norm = lut[:, 0].max()\n'
+       '        normalize(lut[:, 0], featx_norm)\n'
+       '        normalize(datax, featx_norm)\n'
+       '\n'
+       '        defo_norm = lut[:, 1].max()\n'
+       '        normalize(lut[:, 1], defo_norm)\n'
+       '        normalize(deform, defo_norm)\n',
+       '        _normalize_lut_axis(lut[:, 0], datax)\n'
+       '        defo_norm = _normalize_lut_axis(lut[:, 1], deform)\n'),
+      ('def normalize(data, dmax):\n',
+       'def _normalize_lut_axis(lut_column, data):\n'
+       '    """Divide LUT column and event data in-place by the column\'s '
+       'maximum"""\n'
+       '    col_max = lut_column.max()\n'
+       '    normalize(lut_column, col_max)\n'
+       '    normalize(data, col_max)\n'
+       '    return col_max\n'
+       '\n'
+       '\n'
+       'def normalize(data, dmax):\n')]),
+    ('refactoring: named intermediates in the scale laws', SCALE,
+     [('        area_um_corr *= (channel_width_out / channel_width_in)**2\n',
+       "        # characteristic length ratio L'/L\n"
+       '        length_ratio = channel_width_out / channel_width_in\n'
+       '        area_um_corr *= length_ratio**2\n'),
+      ('        emodulus_corr *= (flow_rate_out / flow_rate_in) \\\n'
+       '            * (viscosity_out / viscosity_in) \\\n'
+       '            * (channel_width_in / channel_width_out)**3\n',
+       '        flow_rate_ratio = flow_rate_out / flow_rate_in\n'
+       '        viscosity_ratio = viscosity_out / viscosity_in\n'
+       '        inv_length_ratio = channel_width_in / channel_width_out\n'
+       '        scale_factor = (flow_rate_ratio * viscosity_ratio\n'
+       '                        * inv_length_ratio**3)\n'
+       '        emodulus_corr *= scale_factor\n'),
+      ('        volume_corr *= (channel_width_out / channel_width_in)**3\n',
+       "        # characteristic length ratio L'/L\n"
+       '        length_ratio = channel_width_out / channel_width_in\n'
+       '        volume_corr *= length_ratio**3\n')]),
+    ('refactoring: guard clauses in get_pixelation_delta', PX,
+     [('        delt = corr_deform_with_area_um(data_absc, px_um=px_um)\n'
+       '    elif feat_corr == "circ" and feat_absc == "area_um":\n'
+       '        delt = -corr_deform_with_area_um(data_absc, px_um=px_um)\n'
+       '    elif feat_corr == "deform" and feat_absc == "volume":\n'
+       '        delt = corr_deform_with_volume(data_absc, px_um=px_um)\n'
+       '    elif feat_corr == "circ" and feat_absc == "volume":\n'
+       '        delt = -corr_deform_with_volume(data_absc, px_um=px_um)\n'
+       '    elif feat_corr == "area_um":\n'
+       '        # no correction for area\n'
+       '        delt = np.zeros_like(data_absc, dtype=float)\n'
+       '    elif feat_corr == "volume":\n'
+       '        # no correction for volume\n'
+       '        delt = np.zeros_like(data_absc, dtype=float)\n'
+       '    elif feat_corr == feat_absc:\n'
+       '        raise ValueError("Input feature names are identical!")\n'
+       '    else:\n'
+       '        raise KeyError(\n'
+       '            "No rule for feature \'{}\' with abscissa '
+       '".format(feat_corr)\n'
+       '            + "\'{}\'!".format(feat_absc))\n'
+       '    return delt\n',
+       '        return corr_deform_with_area_um(data_absc, px_um=px_um)\n'
+       '    if feat_corr == "circ" and feat_absc == "area_um":\n'
+       '        return -corr_deform_with_area_um(data_absc, px_um=px_um)\n'
+       '    if feat_corr == "deform" and feat_absc == "volume":\n'
+       '        return corr_deform_with_volume(data_absc, px_um=px_um)\n'
+       '    if feat_corr == "circ" and feat_absc == "volume":\n'
+       '        return -corr_deform_with_volume(data_absc, px_um=px_um)\n'
+       '    if feat_corr == "area_um":\n'
+       '        # no correction for area\n'
+       '        return np.zeros_like(data_absc, dtype=float)\n'
+       '    if feat_corr == "volume":\n'
+       '        # no correction for volume\n'
+       '        return np.zeros_like(data_absc, dtype=float)\n'
+       '    if feat_corr == feat_absc:\n'
+       '        raise ValueError("Input feature names are identical!")\n'
+       '    raise KeyError(\n'
+       '        "No rule for feature \'{}\' with abscissa '
+       '".format(feat_corr)\n'
+       '        + "\'{}\'!".format(feat_absc))\n')]),
 ]
